@@ -110,8 +110,16 @@ Definition run_dop (dv : dvariants) (a : obj Q) (op : dop) : res (obj Q) :=
   | DByaxisIn i => obyaxis_in dv a i
   end.
 
-Record caseD := { d_dv : dvariants; d_a : obj Q; d_op : dop; d_out : res (obj Q) }.
-Definition checkD (k : caseD) : bool := res_beq obj_beq (run_dop (d_dv k) (d_a k) (d_op k)) (d_out k).
+(* a chain of derivations: each step is applied to the previous result or (flag true) again to
+   the source object; the model is a pure function of descriptors, so whatever the code caches
+   on an object between steps must not change any result *)
+Fixpoint run_steps (dv : dvariants) (src cur : obj Q) (steps : list (bool * dop)) : res (obj Q) :=
+  match steps with
+  | [] => Ok cur
+  | (from_src, op) :: r => rbind (run_dop dv (if from_src then src else cur) op) (fun x => run_steps dv src x r)
+  end.
+Record caseD := { d_dv : dvariants; d_a : obj Q; d_steps : list (bool * dop); d_out : res (obj Q) }.
+Definition checkD (k : caseD) : bool := res_beq obj_beq (run_steps (d_dv k) (d_a k) (d_a k) (d_steps k)) (d_out k).
 
 (* the measured variant of the array-weighting hash must be the one the source table shows *)
 From Verif Require Import C20.Tables.
